@@ -164,7 +164,7 @@ def run(prop, tier, replay):
                 tmp = sc.path("rf.ndjson")
                 open(tmp, "w").write(json.dumps(hc) + "\n" + json.dumps(s) + "\n")
                 ok = False
-                for _ in range(3):
+                for _ in range(8):
                     if vlib.run([binp, "-in", tmp, "-workers", "1"], ok_codes=(0, 1)).returncode == 1:
                         ok = True
                         break
